@@ -7,7 +7,7 @@
 From Coq Require Import Reals ZArith List Bool String.
 From PyLib Require Import PyVal PyBuiltins Ideal.
 From Gen Require Import M_base M_Angle M_Epoch M_Interpolation M_Coordinates M_Earth M_Sun.
-From Proofs.C14 Require Import C14_tac C14_angle C14_angle2 C14_jde C14_eot C14_season C14_season_all C14_poly C14_rise.
+From Proofs.C14 Require Import C14_tac C14_angle C14_angle2 C14_jde C14_eot C14_season C14_season_all C14_poly C14_rise C14_riseset C14_trts.
 Import ListNotations.
 Open Scope R_scope.
 
@@ -98,6 +98,72 @@ Theorem C14_sunrise_identity : forall h0 phi delta w0,
   sin_alt phi delta w0 = sin h0 /\ sin_alt phi delta (- w0) = sin h0.
 Proof. exact sunrise_identity. Qed.
 
+(* Epoch.rise_set, generated text: closed form.  With (y, mo, d) = get_date, j0 = Epoch(y, mo, d),
+   ls = leap_seconds(y, mo), m and lam the two float % 360 values, the call returns the Epochs
+   jt -+ w/360 where w = degrees(acos c) and c = rs_cosom h phi sd is the sunrise-equation quotient
+   with h0 = -0.83 - 2.076 sqrt(h)/60 degrees and sd = sin(lam) sin(23.44 deg). *)
+Theorem C14_rise_set_closed_form : forall j phi lo h y mo d j0 ls m lam,
+  -360 < phi < 360 -> - (6655 / 100) <= phi <= 6655 / 100 -> 0 <= h ->
+  Epoch_get_date Rops (epo j) (VDict []) = VTuple [VInt y; VInt mo; VFloat d] ->
+  Epoch___init__ Rops (VObj cEpoch [VNone]) (VTuple [VInt y; VInt mo; VFloat d]) (VDict []) = epo j0 ->
+  Epoch_leap_seconds Rops (VInt y) (VInt mo) = VFloat ls ->
+  let js := rs_jstar j0 ls lo in
+  fmod_py Rops (rs_Marg js) 360 = VFloat m ->
+  let mr := m * (PI / 180) in
+  fmod_py Rops (rs_Larg m mr) 360 = VFloat lam ->
+  let lr := lam * (PI / 180) in
+  let sd := rs_sind lr in
+  let c := rs_cosom h phi sd in
+  let jt := rs_jtran js mr lr in
+  let om := acos c * (180 / PI) in
+  -1 <= sd <= 1 -> 0 < cos (phi * (PI / 180)) * cos (asin sd) -> -1 <= c <= 1 ->
+  Epoch___init__ Rops (VObj cEpoch [VNone]) (VTuple [VFloat (jt - om / (3600/10))]) (VDict []) = epo (jt - om / (3600/10)) ->
+  Epoch___init__ Rops (VObj cEpoch [VNone]) (VTuple [VFloat (jt + om / (3600/10))]) (VDict []) = epo (jt + om / (3600/10)) ->
+  Epoch_rise_set Rops (epo j) (ang phi) (ang lo) (VFloat h)
+  = VTuple [epo (jt - om / (3600/10)); epo (jt + om / (3600/10))].
+Proof. exact rise_set_closed_form. Qed.
+
+(* at hour angle +-w0 the altitude formula gives the standard altitude, for the code's own declination *)
+Theorem C14_rise_set_altitude : forall h phi sd,
+  -1 <= sd <= 1 -> cos (phi * (PI / 180)) * cos (asin sd) <> 0 -> -1 <= rs_cosom h phi sd <= 1 ->
+  let w0 := acos (rs_cosom h phi sd) in
+  sin_alt (phi * (PI / 180)) (asin sd) w0 = sin (rs_h0 h * (PI / 180)) /\
+  sin_alt (phi * (PI / 180)) (asin sd) (- w0) = sin (rs_h0 h * (PI / 180)).
+Proof. exact rise_set_altitude. Qed.
+
+Theorem C14_rise_set_order : forall c jt, -1 <= c < 1 ->
+  let om := acos c * (180 / PI) in jt - om / (3600/10) < jt < jt + om / (3600/10).
+Proof. exact rise_set_order. Qed.
+
+(* beyond the limit Angle(66, 33, 0) = 66.55 degrees *)
+Theorem C14_rise_set_polar : forall j phi lo h, -360 < phi < 360 -> (6655 / 100 < phi \/ phi < - (6655 / 100)) ->
+  Epoch_rise_set Rops (epo j) (ang phi) (ang lo) (VFloat h) = VErr ValueError.
+Proof. exact rise_set_polar. Qed.
+
+(* times_rise_transit_set: three None when |cos H0| > 1 ... *)
+Theorem C14_trts_none : forall lon phi a1 d1 a2 d2 a3 d3 h0 dt th0,
+  cos (phi * (PI / 180)) * cos (d2 * (PI / 180)) <> 0 ->
+  1 < Rabs (trts_cosH0 h0 phi d2) ->
+  f_times_rise_transit_set Rops (ang lon) (ang phi) (ang a1) (ang d1) (ang a2) (ang d2) (ang a3) (ang d3)
+    (ang h0) (VFloat dt) (ang th0) = VTuple [VNone; VNone; VNone].
+Proof. exact trts_none. Qed.
+
+(* ... and when |cos H0| <= 1 the guard is passed: the next statement, Angle(acos(cos H0), radians=True),
+   is reached (a failure x of it is the result of the call) *)
+Theorem C14_trts_passes_guard : forall lon phi a1 d1 a2 d2 a3 d3 h0 dt th0 x,
+  cos (phi * (PI / 180)) * cos (d2 * (PI / 180)) <> 0 ->
+  Rabs (trts_cosH0 h0 phi d2) <= 1 ->
+  Angle___init__ Rops (VObj cAngle [VNone; VNone]) (VTuple [VFloat (acos (trts_cosH0 h0 phi d2))])
+     (VDict [kw "radians" (VBool true)]) = VErr x ->
+  f_times_rise_transit_set Rops (ang lon) (ang phi) (ang a1) (ang d1) (ang a2) (ang d2) (ang a3) (ang d3)
+    (ang h0) (VFloat dt) (ang th0) = VErr x.
+Proof. exact trts_passes_guard. Qed.
+
+(* no hour angle reaches h0 when |cos H0| > 1 *)
+Theorem C14_never_crosses : forall h0 phi delta H,
+  0 < cos phi * cos delta -> 1 < Rabs (cos_w0 h0 phi delta) -> sin_alt phi delta H <> sin h0.
+Proof. exact never_crosses. Qed.
+
 Redirect "C14_jde2000.assumptions" Print Assumptions C14_jde2000.
 Redirect "C14_eot_closed_form.assumptions" Print Assumptions C14_eot_closed_form.
 Redirect "C14_eot_reduced.assumptions" Print Assumptions C14_eot_reduced.
@@ -113,3 +179,10 @@ Redirect "C14_season_order.assumptions" Print Assumptions C14_season_order.
 Redirect "C14_season_year_length.assumptions" Print Assumptions C14_season_year_length.
 Redirect "C14_season_joint.assumptions" Print Assumptions C14_season_joint.
 Redirect "C14_sunrise_identity.assumptions" Print Assumptions C14_sunrise_identity.
+Redirect "C14_rise_set_closed_form.assumptions" Print Assumptions C14_rise_set_closed_form.
+Redirect "C14_rise_set_altitude.assumptions" Print Assumptions C14_rise_set_altitude.
+Redirect "C14_rise_set_order.assumptions" Print Assumptions C14_rise_set_order.
+Redirect "C14_rise_set_polar.assumptions" Print Assumptions C14_rise_set_polar.
+Redirect "C14_trts_none.assumptions" Print Assumptions C14_trts_none.
+Redirect "C14_trts_passes_guard.assumptions" Print Assumptions C14_trts_passes_guard.
+Redirect "C14_never_crosses.assumptions" Print Assumptions C14_never_crosses.
